@@ -368,6 +368,39 @@ func gen(r *rand.Rand, i int, tier string) Case {
 	if i%3 == 0 {
 		c.Limit = 10 + r.IntN(15) // limits where the 110% threshold leaves room between compactions
 	}
+	if i%8 == 4 {
+		// limit-change scenario: a long history under a generous limit, then the
+		// limit is lowered below the current size (to 20 or more, where the 110%
+		// threshold leaves room for appends), one to a few adds, restart; enough
+		// adds for a compaction, restart; the limit raised again, adds, restart.
+		// Whatever the implementation trims in memory, a restart may never load
+		// more than the bound of the limit in force when the last add happened.
+		l0 := 40 + r.IntN(60)
+		c.Limit = l0
+		adds := func(n int) []Op {
+			var ops []Op
+			for k := 0; k < n; k++ {
+				ops = append(ops, Op{Kind: "add", Form: genForm(r, false)})
+			}
+			return ops
+		}
+		n0 := 30 + r.IntN(l0-30)
+		l1 := 20 + r.IntN(n0-24)
+		c.Sessions = append(c.Sessions, adds(n0))
+		second := []Op{{Kind: "limit", A: l1}}
+		if r.IntN(4) != 0 {
+			second = append(second, adds(1+r.IntN(max(l1/10-1, 1)))...)
+		}
+		c.Sessions = append(c.Sessions, second)
+		if r.IntN(2) == 0 { // lowered again in the same session as the adds that follow
+			l2 := 20 + r.IntN(max(l1-20, 1))
+			c.Sessions = append(c.Sessions, append(append(adds(r.IntN(3)), Op{Kind: "limit", A: l2}), adds(1)...))
+			l1 = l2
+		}
+		c.Sessions = append(c.Sessions, adds(l1/10+3))
+		c.Sessions = append(c.Sessions, append([]Op{{Kind: "limit", A: l1 + 10 + r.IntN(30)}}, adds(5+r.IntN(10))...))
+		return c
+	}
 	crash := i%2 == 1
 	c.Crash = crash
 	odd := 0
